@@ -383,11 +383,14 @@ func formatInto(sb *strings.Builder, format string, args []string, percentB bool
 				if c == 'b' {
 					// Passing in nil for args ensures that % format
 					// strings aren't processed; only escape sequences
-					// will be handled.
-					_, err := formatInto(sb, arg, nil, true)
+					// will be handled. The result is then padded like %s.
+					var bsb strings.Builder
+					_, err := formatInto(&bsb, arg, nil, true)
 					if err != nil {
 						return 0, err
 					}
+					farg = bsb.String()
+					c = 's'
 				} else if c != 's' {
 					n, _ := strconv.ParseInt(arg, 0, 0)
 					if c == 'i' || c == 'd' {
